@@ -7,7 +7,7 @@ import tlslib, json
 
 PROTOS = (257, 771, 772)
 DEFECTS = ["untrusted", "fakeroot", "fakerootsent", "fakeroot1", "expired", "notyet", "caexpired", "issuernotca", "issuernobc", "badsig", "cabadsig",
-           "wrongissuerkey", "signkeymismatch", "leafku", "pathlen"]
+           "wrongissuerkey", "signkeymismatch", "leafku", "leafkunc", "leafencnc", "pathlen"]
 TLCP_ONLY = ["enckeymismatch", "encbadsig", "encexpired", "encotherissuer", "encselfsigned", "encwrongissuerkey"]
 
 
